@@ -271,6 +271,10 @@ func universe() []Val {
 	add(m("Formatter", true, func(v int) interface{} { return fmtT{secStrLF[v]} }))
 	add(m("Formatter via io.WriteString", true, func(v int) interface{} { return fmtWST{secStrLF[v]} }))
 	add(m("[]Formatter via io.WriteString", true, func(v int) interface{} { return []interface{}{safeT("ok"), fmtWST{secStr[v]}, secPlain[v]} }))
+	add(m("int-kind error", true, func(v int) interface{} { return errnoT(2 + v) }))
+	add(m("string-kind error", true, func(v int) interface{} { return strKindErr(secPlain[v]) }))
+	add(m("slice-kind error", true, func(v int) interface{} { return sliceErr{secPlain[v], secStr[v]} }))
+	add(m("[]int-kind error", true, func(v int) interface{} { return []error{errnoT(7 + v), nil} }))
 	add(m("recFormatter", true, func(v int) interface{} { return recFmtT{secPlain[v]} }))
 	add(m("error+Formatter", true, func(v int) interface{} { return errFmtT{secStr[v]} }))
 	add(m("error+Stringer", true, func(v int) interface{} { return strErrT{secStr[v]} }))
